@@ -84,7 +84,7 @@ def funnel_cases(draw, tier="quick"):
     deco = lambda: (draw(st.sampled_from([b"", b"", b"/", b"./", b"//", b"././", b"/./"])), draw(st.sampled_from([b"/", b"/", b"//", b"/./", b"/.//"])),
                     draw(st.sampled_from([b"", b"", b"/", b"/.", b"//"])))
     return dict(nodes=nodes, deco_name={n["path"]: deco() for n in nodes}, deco_tgt={n["path"]: deco() for n in nodes if n["type"] == "hlink"},
-                what=draw(st.sampled_from(["tar_names", "tar_names", "tar_exclude", "pack_file", "rd_path", "dotdot", "s2t_opts"])),
+                what=draw(st.sampled_from(["tar_names", "tar_names", "tar_exclude", "pack_file", "pack_glob", "rd_path", "rd_path", "dotdot", "s2t_opts"])),
                 s2t_root=draw(st.sampled_from([b"pre", b"pre/sub", b"x.y", b".hid"])), s2t_deco=deco(),
                 exclude=draw(st.sampled_from([b"skip/*", b"dir", b"*/sub", b"a*"])), ex_deco=deco(),
                 dd_where=draw(st.sampled_from(["name", "target", "arg"])), dd_style=draw(st.sampled_from([b"../", b"x/../", b"./../", b"x/.././"])))
@@ -128,6 +128,11 @@ def _pack(case, names, targets):
         else:
             lines.append(b"link " + nm + b" 0 0 0 " + treemodel.pf_quote(targets[n["path"]]))
     return b"\n".join(lines) + b"\n"
+
+
+def treemodel_quote(b):
+    import treemodel
+    return treemodel.pf_quote(b)
 
 
 def check_case(case, opts):
@@ -195,12 +200,35 @@ def check_case(case, opts):
                 res_.append(r)
             both_images(res_[0], res_[1], o1, o2, "gensquashfs pack file paths / link targets")
             return CaseInfo(changed >= 1 and res_[0].rc == 0, ["pack_file"])
+        if what == "pack_glob":
+            # the target directory of a glob line, spelled two ways
+            ind = os.path.join(sc, "in")
+            os.makedirs(os.path.join(ind, "sub"))
+            for nm_ in ("one", "two", "sub/three"):
+                with open(os.path.join(ind, nm_), "wb") as fh:
+                    fh.write(nm_.encode())
+            dirs_ = [n["path"] for n in nodes if n["type"] == "dir"]
+            tgt = dirs_[len(dirs_) // 2] if dirs_ else b""
+            res_ = []
+            for k, spelled in enumerate((b"/" + tgt, (sp_names[tgt] if tgt else case["s2t_deco"][0] or b"/"))):
+                if not spelled.startswith(b"/"):
+                    spelled = b"/" + spelled
+                lf = os.path.join(sc, "list%d.txt" % k)
+                with open(lf, "wb") as fh:
+                    fh.write(b"".join(b"dir " + treemodel_quote(b"/" + d_) + b" 0755 0 0\n" for d_ in dirs_) + b"glob " + treemodel_quote(spelled) + b" 0644 0 0 in\n")
+                r = vcommon.run([gen, "-F", lf, "-D", sc, "-q", "-c", "gzip", "-b", "4096", (o1, o2)[k]], timeout=60)
+                judge(r, "gensquashfs")
+                res_.append(r)
+            both_images(res_[0], res_[1], o1, o2, "gensquashfs glob target %r" % tgt)
+            return CaseInfo(bool(tgt) and sp_names[tgt] != tgt and res_[0].rc == 0, ["pack_glob"])
         if what == "rd_path":
             r1 = t2s_run(_tar(case, canon_names, canon_tgts), o1)
             if r1.rc != 0:
                 raise Inconclusive("image build")
             n = nodes[0] if len(nodes) == 1 else nodes[len(nodes) // 2]
             flag = "-c" if n["type"] == "file" else ("-l" if n["type"] == "dir" else "-s")
+            if len(nodes) % 2 == 0:
+                flag = ["-x", "-s"][len(nodes) // 2 % 2]          # every option that takes a path goes through the same funnel
             a = vcommon.run([rd, flag, b"/" + n["path"], o1], timeout=30)
             sp = sp_names[n["path"]]
             b = vcommon.run([rd, flag, sp, o1], timeout=30)
